@@ -1,6 +1,16 @@
-import ShellOp.Model.Metrics
+import ShellOp.Proofs.Metrics
 /-!
 # C16 — hook metrics: validated as a batch; grouped metrics replaced, not accumulated
+
+Theorems over `Model/Metrics` (the code-shaped model of `SendBatch` / `applyGroupOperations` /
+`sendBatchV0`, the grouped vault with collections keyed by label values only, the ungrouped vecs).
+Quantifiers: every state (= every history), every batch, every common-label set (hook), every
+iteration order `order` of the Go map `groupedOps` unless a hypothesis says otherwise.
+
+What holds only under hypotheses is named `…_partial`; the excluded inputs are the recorded
+findings, each with a kernel-checked witness below and a replay case in the harness.
+The property itself, as a reference registry, is `Spec.applyBatch` (evaluated by the `oracle` lines
+on every scrape of the real storage).
 -/
 namespace ShellOp.Metrics.C16
 open ShellOp ShellOp.Metrics
@@ -18,5 +28,215 @@ theorem invalid_batch_noop (st : State) (common : Labels) (ops : List Op) (order
     simp only [validBatch, List.all_eq_false]
     exact ⟨op, hm, by simp [hv]⟩
   simp [sendBatch, this]
+
+example : sendBatch {} [(1, 7)] [{ name := 2, action := "set", value := some 4 },
+    { name := 3, action := "bogus", value := some 2 }, { group := 5, action := "expire" }] [5] = ({}, false) := by
+  decide
+
+theorem foldl_groups_u (common : Labels) (ops : List Op) (order : List Nat) (st : State) :
+    (order.foldl (fun st g => applyGroupOperations common st g (ops.filter (·.group == g))) st).vecs = st.vecs ∧
+    (order.foldl (fun st g => applyGroupOperations common st g (ops.filter (·.group == g))) st).uentries = st.uentries := by
+  induction order generalizing st with
+  | nil => exact ⟨rfl, rfl⟩
+  | cons g gs ih =>
+    simp only [List.foldl_cons]
+    have h1 := applyGroupOperations_u common st g (ops.filter (·.group == g))
+    have h2 := ih (applyGroupOperations common st g (ops.filter (·.group == g)))
+    exact ⟨h2.1.trans h1.1, h2.2.trans h1.2⟩
+
+/-- **C16.3c** Ungrouped series are left untouched by the grouped part of any batch: a batch
+without ungrouped operations leaves every ungrouped vec and series exactly as it was. -/
+theorem ungrouped_untouched (st : State) (common : Labels) (ops : List Op) (order : List Nat)
+    (hg : ∀ op ∈ ops, op.group ≠ 0) :
+    (sendBatch st common ops order).1.vecs = st.vecs ∧ (sendBatch st common ops order).1.uentries = st.uentries := by
+  unfold sendBatch
+  split
+  · exact ⟨rfl, rfl⟩
+  · have hnone : ops.filter (·.group == 0) = [] := by
+      simp only [List.filter_eq_nil_iff]; intro op hop; simpa using hg op hop
+    simp only [hnone, sendBatchV0]
+    exact foldl_groups_u common ops order st
+
+/-- **C16.3b′** Grouped series are left untouched by ungrouped operations: a batch without grouped
+operations (the Go map of groups is then empty) leaves every collector and grouped series as it was. -/
+theorem grouped_untouched_by_ungrouped (st : State) (common : Labels) (ops : List Op) :
+    (sendBatch st common ops []).1.colls = st.colls ∧ (sendBatch st common ops []).1.gentries = st.gentries := by
+  unfold sendBatch
+  split
+  · exact ⟨rfl, rfl⟩
+  · simpa using sendBatchV0_g common st (ops.filter (·.group == 0))
+
+/-- **C16.3b** `other_groups_untouched` (partial: hypothesis `NoCrossGroupSeries` for `g'`): a
+group `g'` that the batch does not mention keeps exactly its series, with their values, provided
+no operation of the batch addresses a series (name, label values) that `g'` owns. Without the
+hypothesis the statement is false — `cross_group_witness`. -/
+theorem other_groups_untouched_partial (st : State) (common : Labels) (ops : List Op) (order : List Nat)
+    (g' : Nat) (hg' : g' ∉ order)
+    (hno : ∀ op ∈ ops, ∀ e ∈ owned st.gentries g', (e.name, e.key) ≠ opIdent common op) :
+    owned (sendBatch st common ops order).1.gentries g' = owned st.gentries g' := by
+  unfold sendBatch
+  split
+  · rfl
+  · simp only
+    rw [(sendBatchV0_g common _ _).2]
+    induction order generalizing st with
+    | nil => rfl
+    | cons g gs ih =>
+      simp only [List.foldl_cons]
+      have hne : g ≠ g' := fun h => hg' (by simp [h])
+      have h1 := applyGroupOperations_owned_other common st g g' (ops.filter (·.group == g)) hne
+        (fun op hop e he => hno op (List.mem_filter.mp hop).1 e he)
+      rw [ih _ (fun h => hg' (List.mem_cons_of_mem _ h)) (by rw [h1]; exact hno), h1]
+
+theorem foldl_groups_IdIn_other (common : Labels) (ops : List Op) (order : List Nat) (g : Nat)
+    (hg : g ∉ order) (st : State) (ids) (h : IdIn st.gentries g ids) :
+    IdIn (order.foldl (fun st g => applyGroupOperations common st g (ops.filter (·.group == g))) st).gentries g ids := by
+  induction order generalizing st with
+  | nil => exact h
+  | cons g2 gs ih =>
+    simp only [List.foldl_cons]
+    have hne : g2 ≠ g := fun e => hg (by simp [e])
+    exact ih (fun hm => hg (List.mem_cons_of_mem _ hm)) _
+      (applyGroupOperations_IdIn_other common st g g2 hne _ ids h)
+
+/-- **C16.3a** `group_replacement`, the "disappear" half, without any hypothesis: after a valid
+batch, for every group `g` mentioned (visited once by the map iteration), every series `g` owns
+was addressed by a write operation of this batch for `g` — nothing reported earlier under `g`
+survives unless the batch writes it again. -/
+theorem group_replacement_no_stale (st : State) (common : Labels) (ops : List Op) (order : List Nat)
+    (g : Nat) (hg : g ∈ order) (hnd : order.Nodup) :
+    ∀ e ∈ owned (sendBatch st common ops order).1.gentries g,
+      (e.name, e.key) ∈ writeIdents common (ops.filter (·.group == g)) ∨ validBatch ops = false := by
+  unfold sendBatch
+  split
+  · intro e _; right; simp_all
+  · simp only
+    rw [(sendBatchV0_g common _ _).2]
+    intro e he
+    left
+    obtain ⟨pre, post, rfl⟩ := List.append_of_mem hg
+    have hpost : g ∉ post := by
+      have := List.nodup_append.mp hnd
+      have h2 := (List.nodup_cons.mp this.2.1).1
+      exact h2
+    simp only [List.foldl_append, List.foldl_cons] at he
+    exact foldl_groups_IdIn_other common ops post g hpost _ _
+      (applyGroupOperations_IdIn common _ g (ops.filter (·.group == g))) e he
+
+/-- **C16.4** `explicit_expire`: a batch that only expires group `g` leaves `g` without series. -/
+theorem explicit_expire (st : State) (common : Labels) (g : Nat) (hg : g ≠ 0) :
+    owned (sendBatch st common [{ group := g, action := "expire" }] [g]).1.gentries g = [] := by
+  have hv : validBatch [{ group := g, action := "expire" }] = true := by
+    simp [validBatch, validOp, hg, Facts.c16GroupedActions]
+  have := group_replacement_no_stale st common [{ group := g, action := "expire" }] [g] g (by simp) (by simp)
+  rw [List.eq_nil_iff_forall_not_mem]
+  intro e he
+  rcases this e he with h | h
+  · simp [writeIdents] at h
+  · simp [hv] at h
+
+/-! ## Values: the statement and what is proved of it -/
+
+/-- what `g` owns, as an association (name, labels) ↦ value. -/
+def ownedAssoc (st : State) (g : Nat) : List ((Nat × Labels) × Int) :=
+  (owned st.gentries g).map fun e => ((e.name, e.key), e.val)
+
+/-- **C16.3a, full statement** (`group_replacement`): for a batch that mentions only group `g`,
+under `NoCrossGroupSeries` (no series addressed by the batch is owned by another group) and
+`NoNameClash` (every written name is free or already a grouped collector of the operation's type),
+the series owned by `g` afterwards are exactly those the batch describes, with the values given.
+This statement is **not proved** here (see notes/C16.md); it is evaluated on every scrape of the
+real storage by the reference-registry oracle, and proved on concrete histories below. -/
+def GroupReplacementStatement : Prop :=
+  ∀ (st : State) (common : Labels) (ops : List Op) (g : Nat),
+    validBatch ops = true → (∀ op ∈ ops, op.group = g) → g ≠ 0 →
+    (∀ op ∈ ops, ∀ e ∈ st.gentries, (e.name, e.key) = opIdent common op → e.group = g) →
+    (∀ op ∈ ops, op.action ≠ "expire" →
+        getOrCreateColl st op.name (if op.action == "add" then .counter else .gauge) ≠ none) →
+    (∀ op ∈ ops, ∀ op' ∈ ops, op.name = op'.name → op.action ≠ "expire" → op'.action ≠ "expire" → op.action = op'.action) →
+    ∀ k, (ownedAssoc (sendBatch st common ops [g]).1 g).lookup k = (Spec.written common ops).lookup k
+
+/-- `group_replacement` on a concrete history: two groups sharing a name, re-sent with other
+values, fractional counter, explicit expire in the middle. -/
+example :
+    let b1 : List Op := [{ name := 10, group := 1, action := "set", value := some 10, labels := [(3, 4)] },
+                         { name := 11, group := 1, action := "add", value := some 3 },
+                         { name := 10, group := 2, action := "set", value := some 14, labels := [(3, 5)] }]
+    let b2 : List Op := [{ name := 11, group := 1, action := "add", value := some 3 },
+                         { group := 1, action := "expire" },
+                         { name := 10, group := 1, action := "set", value := some 6, labels := [(3, 6)] }]
+    let st1 := (sendBatch {} [(1, 7)] b1 [1, 2]).1
+    let st2 := (sendBatch st1 [(1, 7)] b2 [1]).1
+    ownedAssoc st2 1 = [((10, [(1, 7), (3, 6)]), 6)] ∧ ownedAssoc st2 2 = [((10, [(1, 7), (3, 5)]), 14)]
+      ∧ (Spec.written [(1, 7)] b2) = [((10, [(1, 7), (3, 6)]), 6)] := by decide
+
+/-! ## Witnesses for the repaired defects and the recorded findings -/
+
+/-- Repaired defect (a): the unrepaired loop body applied the `{"add": 1}` shortcut twice. -/
+theorem shortcut_add_twice_unrepaired_witness :
+    let op := normalize { name := 2, group := 3, add := some 2 }
+    ((applyGroupOpUnrepaired [] 3 {} op).gentries.map (·.val) = [4]) ∧
+    ((applyGroupOp [] 3 {} op).gentries.map (·.val) = [2]) := by decide
+
+/-- Repaired defect (b): the unrepaired counter truncated 1.5 to 1. -/
+theorem counter_truncation_unrepaired_witness :
+    (applyGroupOpUnrepaired [] 3 {} { name := 2, group := 3, action := "add", value := some 3 }).gentries.map (·.val) = [2]
+    ∧ (applyGroupOp [] 3 {} { name := 2, group := 3, action := "add", value := some 3 }).gentries.map (·.val) = [3] := by
+  decide
+
+/-- the history `A sets m{l}; B sets m{l}; A expires`. -/
+def crossHistory : State :=
+  let s1 := (sendBatch {} [] [{ name := 9, group := 1, action := "set", value := some 10, labels := [(3, 4)] }] [1]).1
+  let s2 := (sendBatch s1 [] [{ name := 9, group := 2, action := "set", value := some 14, labels := [(3, 4)] }] [2]).1
+  (sendBatch s2 [] [{ group := 1, action := "expire" }] [1]).1
+
+/-- Finding `group-ownership-by-label-hash`: `other_groups_untouched` is false without its
+hypothesis — group 2 reported a series, never expired it, and it is gone (and it was never owned
+by group 2 at all). -/
+theorem cross_group_witness : crossHistory.gentries = [] := by decide
+
+/-- Finding `grouped-ungrouped-name-clash`: after a grouped use of a name, a valid ungrouped
+operation on it changes nothing, yet the call succeeds. -/
+theorem name_clash_witness :
+    let s1 := (sendBatch {} [] [{ name := 9, group := 1, action := "set", value := some 10 }] [1]).1
+    sendBatch s1 [] [{ name := 9, action := "set", value := some 4 }] [] = (s1, true) := by decide
+
+/-- Finding `ungrouped-label-names-change`. -/
+theorem label_names_change_witness :
+    let s1 := (sendBatch {} [] [{ name := 9, action := "set", value := some 2, labels := [(3, 4)] }] []).1
+    sendBatch s1 [] [{ name := 9, action := "set", value := some 4, labels := [(3, 4), (5, 6)] }] [] = (s1, true) := by
+  decide
+
+/-- Finding `metric-type-clash`. -/
+theorem type_clash_witness :
+    let s1 := (sendBatch {} [] [{ name := 9, group := 1, action := "set", value := some 2 }] [1]).1
+    (sendBatch s1 [] [{ name := 9, group := 2, action := "add", value := some 4 }] [2]).1.gentries = s1.gentries := by
+  decide
+
+/-! ## Ungrouped updates -/
+
+/-- **C16.2** `ungrouped_update`: on a name that is free in the registry, an ungrouped `set`
+creates the vec with the operation's label names plus `hook`, and the series with the value. -/
+theorem ungrouped_set_fresh (st : State) (common : Labels) (op : Op) (v : Int)
+    (ha : op.action = "set") (hv : op.value = some v)
+    (hfree : st.registered op.name = false)
+    (hvec : st.vecs.find? (fun x => x.name == op.name && x.fam == Fam.gauge) = none) :
+    sendOneV0 common st op = some { st with
+      vecs := st.vecs ++ [{ name := op.name, fam := .gauge, labelNames := (mergeLabels op.labels common).map (·.1) }],
+      uentries := uUpsert (fun e => { e with val := v }) op.name (mergeLabels op.labels common) st.uentries } := by
+  simp [sendOneV0, ha, hv, ungroupedApply, hfree, hvec]
+
+/-- the `hook` label is merged in and wins over a label of the same name written by the hook. -/
+example : mergeLabels [(5, 6), (1, 99)] [(1, 7)] = [(1, 7), (5, 6)] := by decide
+
+/-- `ungrouped_update` on a concrete history: add accumulates, set overwrites, observe counts. -/
+example :
+    let c : Labels := [(1, 7)]
+    let st := (sendBatch {} c [{ name := 20, action := "add", value := some 3 }, { name := 20, action := "add", value := some 2 },
+      { name := 21, action := "set", value := some 8 }, { name := 21, action := "set", value := some 5 },
+      { name := 22, action := "observe", value := some 1, buckets := true },
+      { name := 22, action := "observe", value := some 4, buckets := true }] []).1
+    st.uentries = [{ name := 20, key := c, val := 5 }, { name := 21, key := c, val := 5 },
+                   { name := 22, key := c, val := 5, cnt := 2 }] := by decide
 
 end ShellOp.Metrics.C16
